@@ -74,15 +74,41 @@ Sets WITH augment statements:
     (hypotheses on `R'`: C07's decidable input predicates `LoadedShape`, `AugPosDistinct`, `AugArgsPlain`);
   - `no_leftover_result` — with nothing left over (and no deviation statements) `processAll` returns the
     loop's forest with `fixChoice` applied to every tree, errors = those recorded in it.
-  Still missing for `IncludeEqInlineAugments`: (A) the pending ENTRIES of the owner's row equal the
-  unsplit module's up to `ren σ` (`context_independence` gives it per statement; the module-level
-  conversion proof `IncludeMod`/`IncludeAsm` ignores `TState.augs`); (S) the lockstep simulation of the two
-  loops in the SAME module order on forests related by `ren σ` / `SameTop` (`find` through `child?_sameTop`,
-  `merge`/`updateAt` under `ren`); (E) the canonical dump as a function of the flat view (children
-  sorted, `NoDupNames`), to pass from `include_augment_loop_order`'s view equality to `dumpOf`.
-  For sets WITH augments left for the stage after FixChoice the same three pieces are needed for every
-  retry round (each round is the same loop, `Lemmas/Rounds.lean`), plus `fixChoice` under `ren σ` /
-  `SameTop`.
+  - (E) `dump_of_path_view`, `dump_of_view` — the canonical dump is a function of the *path view* (which
+    data — everything but the error list — sits at which step path; `Lemmas.IncludeAugDump.PEq`) for trees
+    with `KeysUnique`: the order of the children in a `Dir` and recorded errors do not matter; and from C07's
+    flat view (`viewOf`, what `include_augment_loop_order` speaks about) to the path view under `IOShape` (an rpc /
+    action node has no `Dir` child, any other node no input / output) and `SameIO` (the same rpc inputs / outputs
+    created).  `dump_not_function_of_flat_view`: `SameIO` cannot be dropped — the flat view shows an rpc's input
+    whether or not goyang has created the entry, the dump only when it exists (witness `rpc0` / `rpc1`).
+  - (F) `fixChoice_path_view` — `FixChoice` respects the path view of error-free trees (needed between the loop
+    and the dump; `Lemmas.IncludeAugFix.keysUnique_fixChoice`: and keeps `KeysUnique`).
+  - `include_dump_in_unsplit_order`, `include_clean_in_unsplit_order` — (E) + (F) + `no_leftover_result` applied to
+    `include_augment_loop_order`: on the DUMP of every module, and for error-freeness, `Process` on the split set
+    is the augment loop run in the module order of the unsplit set (`Lemmas.IncludeAugCompose.loopU`) followed
+    by `FixChoice` (hypotheses on the two trees: `IOShape`, `SameIO`; kernel-checked on `Ex4`).
+  - `include_dump_of_related_trees` — the last step, for ANY two outcomes: owner's tree `SameTop σ` the unsplit
+    module's tree ⇒ equal dumps (namespace, read-only, instantiating module, path at every node).
+  - `include_eq_inline_augments_reduced` — the composition, machine-checked: `IncludeEqInlineAugments` follows
+    from `Lemmas.IncludeAugCompose.LoopsRelated` (the two loops run in the SAME module order: the split one
+    records no error, the owner's tree is the unsplit module's up to `SameTop σ`; `IOShape` of the owner's trees;
+    `SameIO`), under `LoadedShape` / `AugPosDistinct` / `AugArgsPlain` and `NoLeftover` of the split registry
+    (all decidable).
+  Still missing for `IncludeEqInlineAugments`, i.e. for `LoopsRelated`: (A) the pending ENTRIES of the owner's
+  row equal the unsplit module's up to `ren σ` (`context_independence` gives it per statement once the state
+  at the call is known coherent; the module-level conversion proofs `IncludeMod.mod_conv` /
+  `IncludeModN.part_conv_aux` call `fields_rel` with a state relation `RSm` that ignores `TState.augs` — the
+  `haug` argument of `fields_rel` is where a relation on the recorded rows has to be threaded through; for the
+  owner this means restating `PGoal`); (S) the lockstep simulation of the two loops in the SAME module order on
+  forests related by `ren σ` / `SameTop` (`find` through `child?_sameTop`, `merge`/`updateAt` under `ren`; the
+  split forest has the additional submodule trees and the other registry); (I) `IOShape` along the pipeline (it
+  does not fit the `LocalBase` closure scheme: the `isRpc` flag is set on an entry after its children) and
+  `SameIO` of the two runs over the split set (every pending augment is retried in the last, unproductive pass,
+  so both runs create the same inputs / outputs — not proved; trivial for sets without rpc / action nodes,
+  `Lemmas.IncludeAugView.sameIO_of_noRpc`).  (E) is closed.
+  For sets WITH augments left for the stage after FixChoice the same pieces are needed for every
+  retry round (each round is the same loop, `Lemmas/Rounds.lean`); `fixChoice` under `SameTop` is
+  `Lemmas.IncludeMain.sameTop_fixChoice`, under the path view `fixChoice_path_view`.
 
 Replay of the D67 witness (the texts are in the corpus file; both programs lived in /tmp).  Before the
 repair — Go: `ms := yang.NewModules(); ms.Parse(text, name)` for every file in the order given,
@@ -134,7 +160,9 @@ Proved below: `include_eq_inline_noaug` (this very statement for sets without au
 statements), `include_eq_inline_partial` + `include_paths` (the same sets; `R` without submodules),
 `include_conversion` (conversion stage, augments and deviations allowed), and for sets with augments
 `include_pending_rows`, `include_augment_loop_order`, `include_augment_loop_clean_iff`, `no_leftover_result`,
-`include_eq_inline_witness`.
+`include_eq_inline_witness`, `dump_of_path_view` / `dump_of_view` (E), `fixChoice_path_view` (F),
+`include_dump_in_unsplit_order`, `include_clean_in_unsplit_order`, `include_dump_of_related_trees`,
+`include_eq_inline_augments_reduced`.
 The statement with the hypotheses under which those results apply is `IncludeEqInlineAugments`.  What is
 missing for it: (1) the augment loop
 visits the trees in an order that the additional (augment-free) submodule trees change (swap-remove
@@ -142,8 +170,9 @@ over the module array), so children grafted by different modules into one node c
 order — CLOSED on the flat view by `include_augment_loop_order` (C07's order independence); what remains
 is (A) the pending entries of the owner's row equal the unsplit module's up to `ren σ`, (S) the lockstep
 simulation of the two loops in the same module order on forests related by `ren σ` / `SameTop` (targets go
-through `Entry.Find` by name, insensitive to the order: `child?_sameTop`), (E) the canonical dump as a
-function of the flat view; (3) nested includes among the parts ARE covered
+through `Entry.Find` by name, insensitive to the order: `child?_sameTop`), (I) `IOShape` along the pipeline and
+`SameIO` of the two runs ((E) the canonical dump as a function of the view: CLOSED, `dump_of_view`; the whole
+composition from (A) + (S) + (I): `include_eq_inline_augments_reduced`); (3) nested includes among the parts ARE covered
 (`parts_merge_each_submodule_once`); (4) other modules of `R` with submodules of their own (their include
 steps run in lockstep in both registries; not done); deviations (after the augment stage: `find` on
 related forests, as (S)).  The metamorphic runner harness/cmd/corr-c13c checks the full statement on both
@@ -192,7 +221,7 @@ theorem include_eq_inline_noaug (s : Split) (R R' : Registry) (opts : Opts) (plu
 /-! ### sets with augment statements -/
 
 /-- **The statement for sets with augments that the results below work towards** (not proved in general;
-kernel-checked on `Ex4`): no deviation statement in the set, and the augment loop of the unsplit set
+reduced to `Lemmas.IncludeAugCompose.LoopsRelated` by `include_eq_inline_augments_reduced`; kernel-checked on `Ex4`): no deviation statement in the set, and the augment loop of the unsplit set
 leaves no augment pending (`NoLeftover`: decidable by running the loop; it excludes the augments that
 wait for the stage after FixChoice — targets in the implied case of a shorthand choice member).  Since
 the repair of D67 the second hypothesis is no longer needed for the statement to hold on the known
@@ -1272,5 +1301,117 @@ theorem dump_in_unsplit_order :
   exact include_dump_in_unsplit_order sp R R' {} plug plug isSplit (by decide +kernel) (by decide +kernel) argsPlain stage1 conv0
     hdev noLeftover' split_clean o hts htu hss hsu (Lemmas.IncludeAugView.sameIO_of_noRpc hrs hss hru hsu)
 end Ex4E
+
+/-! non-vacuity of `fixChoice_path_view`: a choice with two shorthand members, and the same choice with the members
+in the other order: `FixChoice` wraps each member into its implied case, in either order -/
+namespace ExE
+def chA : Entry := .mk { name := "ch", kind := .choice, hasDir := true } [lf "a", lf "b"] [] []
+def chB : Entry := .mk { name := "ch", kind := .choice, hasDir := true } [lf "b", lf "a"] [] []
+
+example : Lemmas.IncludeAugDump.PEq (fixChoice chB) (fixChoice chA) :=
+  fixChoice_path_view (Lemmas.IncludeAugDump.peq_of_dir_perm _ _ _ _ _ _ rfl (List.Perm.swap _ _ _) (by decide))
+    (by decide) (by decide)
+
+example : ((fixChoice chA).dir.map fun c => (c.name, c.d.kind, c.dir.map (·.name))) =
+    [("a", Kind.case_, ["a"]), ("b", Kind.case_, ["b"])] := by decide
+end ExE
+
+/-! ### the reduction of `IncludeEqInlineAugments` to what is still open -/
+
+/-- **include_clean_in_unsplit_order.**  `Process` on a split set (nothing left pending after the loop, no
+deviation statements, first two stages clean) is error free iff the augment loop run in the module order of the
+UNSPLIT set records no error. -/
+theorem include_clean_in_unsplit_order (s : Split) (R R' : Registry) (opts : Opts) (plug plug' : Plug)
+    (h : IsSplitOf s R R' plug plug') (hL : Lemmas.Fuel.LoadedShape R') (hpos : Lemmas.Bridge.AugPosDistinct R')
+    (hplain : Lemmas.Bridge.AugArgsPlain R') (h1 : stage1Errs R' plug' = []) (h2 : forestErrs (forest0 R' opts plug') = [])
+    (hdev : ∀ x ∈ R'.mods, x.stmt.all "deviation" = []) (hn : Lemmas.IncludeAugOrder.NoLeftover R' opts plug') :
+    (processAll R' opts plug').errors = [] ↔
+      Lemmas.AugmentReport.allErrs (Lemmas.IncludeAugCompose.loopU R R' opts plug').forest = [] :=
+  Lemmas.IncludeAugCompose.split_clean_in_unsplit_order opts plug plug' h hL hpos hplain h1 h2 hdev hn
+
+/-- **include_dump_of_related_trees** (the last step of the assembly, for ANY two outcomes over the unsplit and
+the split registry).  When the owner's tree is the unsplit module's tree up to `SameTop σ` (same data but for
+the statement object; the same children, each equal up to `ren σ`, in another order), the canonical dumps
+are equal. -/
+theorem include_dump_of_related_trees (s : Split) (R R' : Registry) (plug plug' : Plug) (h : IsSplitOf s R R' plug plug')
+    (o o' : Outcome) (ho : o.reg = R) (ho' : o'.reg = R') {t t' : Entry}
+    (ht : o.forest.tree? s.m.seq = some t) (ht' : o'.forest.tree? s.m.seq = some t')
+    (hst : SameTop s.σ t' t) (hnd : (t.dir.map (·.name)).Nodup) : dumpOf o' s.owner = dumpOf o s.m :=
+  Lemmas.IncludeAugFinal.dumpOf_sameTop h o o' ho ho' ht ht' hst hnd
+
+/-- **include_eq_inline_augments_reduced.**  `IncludeEqInlineAugments` follows from `LoopsRelated` — the
+statement that pieces (A) and (S) have to deliver about the two augment loops run in the SAME module order
+(`Lemmas.IncludeAugCompose.LoopsRelated`: the loop over the split set in the unsplit set's module order
+records no error and leaves the owner's tree equal to the unsplit module's up to `SameTop σ`; plus `IOShape`
+of the owner's trees and `SameIO`, the bookkeeping of lazily created rpc inputs / outputs) — under C07's
+decidable input predicates on the split registry and nothing left pending in the split set either
+(`NoLeftover R'`, decidable).  Everything else of the composition is proved: the module order (C07, `include_augment_loop_order`),
+the passage from the flat view to the dump (E), `FixChoice` (F), the stages after the loop (`no_leftover_result`),
+and the dump of related trees (`include_dump_of_related_trees`). -/
+theorem include_eq_inline_augments_reduced (s : Split) (R R' : Registry) (opts : Opts) (plug plug' : Plug)
+    (h : IsSplitOf s R R' plug plug') (hL : Lemmas.Fuel.LoadedShape R') (hpos : Lemmas.Bridge.AugPosDistinct R')
+    (hplain : Lemmas.Bridge.AugArgsPlain R') (hn' : Lemmas.IncludeAugOrder.NoLeftover R' opts plug')
+    (hS : (processAll R opts plug).errors = [] → Lemmas.IncludeAugOrder.NoLeftover R opts plug →
+      Lemmas.IncludeAugCompose.LoopsRelated s R R' opts plug plug') :
+    IncludeEqInlineAugments s R R' opts plug plug' :=
+  fun hdev hn hclean =>
+    Lemmas.IncludeAugCompose.eq_inline_of_loopsRelated opts plug plug' h hL hpos hplain hn' hdev hn hclean (hS hclean hn)
+
+/-! non-vacuity of `include_eq_inline_augments_reduced`: `Ex` (no augment statement: both loops return the
+converted forests, which `include_conversion` relates; the unsplit tree is evaluated in the kernel) -/
+namespace ExR
+open Ex
+open Goyang.Lemmas.IncludeAugView Goyang.Lemmas.IncludeAugCompose
+
+theorem t_ok : ∃ t, (forest0 R {} plug).tree? 0 = some t ∧ IOShape t ∧ NoRpc t := by
+  have h : ((forest0 R {} plug).tree? 0).any (fun t => decide (IOShape t) && decide (NoRpc t)) = true := by decide +kernel
+  cases hh : (forest0 R {} plug).tree? 0 with
+  | none => rw [hh] at h; cases h
+  | some t =>
+    rw [hh] at h
+    simp only [Option.any_some, Bool.and_eq_true, decide_eq_true_eq] at h
+    exact ⟨t, rfl, h.1, h.2⟩
+
+theorem loopsRelated : LoopsRelated sp R R' {} plug plug := by
+  have hna' : NoAugDev R' := noAugDev_split plug plug isSplit noAugDev
+  obtain ⟨a1, a2⟩ := Lemmas.IncludeNoAug.processAll_clean_stages R {} plug unsplit_clean
+  obtain ⟨hlink, _⟩ := stage1_split plug plug isSplit a1
+  obtain ⟨c1, _, _, c4⟩ := include_conversion sp R R' {} plug plug isSplit hlink a2
+  obtain ⟨t, ht, hs, hr⟩ := t_ok
+  obtain ⟨t', ht', hst⟩ := c4 t ht
+  have e1 : (afterLoop R {} plug).2 = pstate0 R {} plug := Lemmas.IncludeNoAug.afterLoop_nil R {} plug noAugDev
+  have e2 : (afterLoop R' {} plug).2 = pstate0 R' {} plug := Lemmas.IncludeNoAug.afterLoop_nil R' {} plug hna'
+  have e3 : loopU R R' {} plug = pstate0 R' {} plug :=
+    Lemmas.IncludeNoAug.augmentLoop_nil R' _ _ _ (Lemmas.IncludeNoAug.pstate0_nil R' {} plug hna')
+  have hs' := ioShape_sameTop sp.σ hst hs
+  have hr' := noRpc_sameTop sp.σ hst hr
+  refine ⟨by rw [e3]; exact c1, t, t', t', by rw [e1]; exact ht, by rw [e2]; exact ht', by rw [e3]; exact ht', hst, hs', hs',
+    sameIO_of_noRpc hr' hs' hr' hs'⟩
+
+/-- The hypotheses of `include_eq_inline_augments_reduced` hold of `Ex` (`AugArgsPlain`: no augment statement). -/
+example : IncludeEqInlineAugments sp R R' {} plug plug := by
+  have hna' : NoAugDev R' := noAugDev_split plug plug isSplit noAugDev
+  refine include_eq_inline_augments_reduced sp R R' {} plug plug isSplit (by decide +kernel) (by decide +kernel) ?_
+    ?_ (fun _ _ => loopsRelated)
+  · intro m hm a ha
+    rw [(hna' m hm).1] at ha
+    cases ha
+  · intro p hp
+    rw [Lemmas.IncludeNoAug.afterLoop_nil R' {} plug hna'] at hp
+    exact Lemmas.IncludeNoAug.pstate0_nil R' {} plug hna' p hp
+end ExR
+
+/-- The hypotheses of `include_dump_of_related_trees` hold of the two results on `Ex`. -/
+example : dumpOf (processAll Ex.R' {} Ex.plug) Ex.o = dumpOf (processAll Ex.R {} Ex.plug) Ex.m := by
+  obtain ⟨_, t, t', ht, ht', hst⟩ := Ex.split_result
+  exact include_dump_of_related_trees Ex.sp Ex.R Ex.R' Ex.plug Ex.plug Ex.isSplit _ _
+    (Lemmas.IncludeDump.processAll_reg _ _ _) (Lemmas.IncludeDump.processAll_reg _ _ _) ht ht' hst
+    (names_nodup_of_clean Ex.R {} Ex.plug Ex.unsplit_clean _ _ ht)
+
+/-- The hypotheses of `include_clean_in_unsplit_order` hold of `Ex4`. -/
+example : (processAll Ex4.R' {} Ex.plug).errors = [] ↔
+    Lemmas.AugmentReport.allErrs (Lemmas.IncludeAugCompose.loopU Ex4.R Ex4.R' {} Ex.plug).forest = [] :=
+  include_clean_in_unsplit_order Ex4.sp Ex4.R Ex4.R' {} Ex.plug Ex.plug Ex4.isSplit (by decide +kernel) (by decide +kernel)
+    Ex4E.argsPlain Ex4E.stage1 Ex4E.conv0 (by decide +kernel) Ex4E.noLeftover'
 
 end Goyang.Props.C13Include
